@@ -130,6 +130,54 @@ def _own(flow):
     return [(n.name, n.location[0], n.location[1]) for n in flow._names]
 
 
+def _expect(r, t, text, filename, project, dump):
+    """fill r['exp'] (+ flow dumps) from a FRESH analysis of the unmarked source"""
+    from supp.evaluator import EvalCtx
+    from supp.util import Source, get_marked_name
+    from supp.nast import extract_scope
+    ln, col = t['ln'], t['col']
+    try:
+        _src_u, _scope_u, names_u, attrs_u = _unmarked_analysis(text, filename, project)
+    except (_Timeout, RecursionError):
+        raise
+    except Exception as e:
+        r['exp_exc'] = 'unmarked:' + type(e).__name__
+        return
+    if t['kind'] == 'name':
+        node = names_u.get((ln, t['start']))
+        if node is None or node.id != t['ident'] or not isinstance(node.ctx, ast.Load):
+            r['exp_exc'] = 'no-load-node'
+            return
+        flow = getattr(node, 'flow', None)
+        if flow is None:
+            r['exp_exc'] = 'no-flow'      # F8/F9 class of defects (C01/C08)
+            return
+        r['exp'] = sorted(flow.names_at((ln, col)))
+        r['exp_kind'] = 'names'
+        if dump:
+            try:
+                r['own_u'] = _own(flow)
+                r['pk'] = sorted(flow.parent_names)
+                src_m = Source(text, filename, (ln, col))
+                extract_scope(src_m, project)
+                mn = get_marked_name(src_m.tree)
+                r['own_m'] = _own(mn.flow) if mn is not None else None
+            except (_Timeout, RecursionError):
+                raise
+            except Exception as e:
+                r['own_u'] = r['own_m'] = r['pk'] = None
+                r['dump_exc'] = type(e).__name__
+    else:
+        node = attrs_u.get((ln, t['start'] + len(t['ident'])))
+        if node is None or node.attr != t['ident']:
+            r['exp_exc'] = 'no-attr-node'
+            return
+        ectx = EvalCtx(project)
+        value = ectx.evaluate(node.value)
+        r['exp'] = sorted(value.attr_list(ectx)) if value else []
+        r['exp_kind'] = 'attrs' if isinstance(node.ctx, ast.Load) else 'attrs_store'
+
+
 def analyse_source(job):
     """job = dict(tag, text, filename, targets=[dict(kind, ln, start, ident, col, ctx)], dump=bool)
     returns list of result dicts, one per target (same order)."""
@@ -141,9 +189,6 @@ def analyse_source(job):
     logging.disable(logging.CRITICAL)
     from supp.assistant import assist
     from supp.project import Project
-    from supp.evaluator import EvalCtx
-    from supp.util import Source, get_marked_name
-    from supp.nast import extract_scope
 
     text = job['text']
     filename = job.get('filename')
@@ -153,8 +198,6 @@ def analyse_source(job):
     project = Project([job['root']])
     lines = split_lines(text)
     out = []
-    unmarked = None
-    unmarked_err = None
     signal.signal(signal.SIGALRM, _alarm)
     for t in job['targets']:
         ln, col = t['ln'], t['col']
@@ -193,52 +236,22 @@ def analyse_source(job):
         if r['exc'] or t['kind'] not in ('name', 'attr'):
             continue
         # ---- expected answer from the analysis of the UNMARKED source --------------------
+        # Every comparison uses fresh analysis state on the unmarked side (a new scope per position): supp
+        # caches attribute tables on scope objects, and a table first computed re-entrantly stays partial
+        # (order dependence, C04/C09 - see notes/C12.md), which must not be mistaken for an effect of the mark.
         signal.alarm(job.get('timeout', 20))
         try:
-            if unmarked is None and unmarked_err is None:
-                try:
-                    unmarked = _unmarked_analysis(text, filename, project)
-                except _Timeout:
-                    raise
-                except Exception as e:
-                    unmarked_err = type(e).__name__
-            if unmarked is None:
-                r['exp_exc'] = 'unmarked:' + unmarked_err
-                continue
-            src_u, scope_u, names_u, attrs_u = unmarked
-            if t['kind'] == 'name':
-                node = names_u.get((ln, t['start']))
-                if node is None or node.id != t['ident'] or not isinstance(node.ctx, ast.Load):
-                    r['exp_exc'] = 'no-load-node'
-                    continue
-                flow = getattr(node, 'flow', None)
-                if flow is None:
-                    r['exp_exc'] = 'no-flow'      # F8/F9 class of defects (C01/C08)
-                    continue
-                r['exp'] = sorted(flow.names_at((ln, col)))
-                r['exp_kind'] = 'names'
-                if job.get('dump'):
-                    try:
-                        r['own_u'] = _own(flow)
-                        r['pk'] = sorted(flow.parent_names)
-                        src_m = Source(text, filename, (ln, col))
-                        extract_scope(src_m, project)
-                        mn = get_marked_name(src_m.tree)
-                        r['own_m'] = _own(mn.flow) if mn is not None else None
-                    except _Timeout:
-                        raise
-                    except Exception as e:
-                        r['own_u'] = r['own_m'] = r['pk'] = None
-                        r['dump_exc'] = type(e).__name__
-            else:
-                node = attrs_u.get((ln, t['start'] + len(t['ident'])))
-                if node is None or node.attr != t['ident']:
-                    r['exp_exc'] = 'no-attr-node'
-                    continue
-                ectx = EvalCtx(project)
-                value = ectx.evaluate(node.value)
-                r['exp'] = sorted(value.attr_list(ectx)) if value else []
-                r['exp_kind'] = 'attrs' if isinstance(node.ctx, ast.Load) else 'attrs_store'
+            _expect(r, t, text, filename, project, job.get('dump'))
+            if any(w == 'transparency' for w, _d in direct_failures(r)):
+                # confirm with completely fresh state on both sides (new Project each)
+                r2 = dict(r, exp=None, exp_kind=None, exp_exc=None)
+                p2, props2 = assist(Project([job['root']]), text, (ln, col), filename)
+                r2['prefix'], r2['props'] = p2, list(props2)
+                _expect(r2, t, text, filename, Project([job['root']]), False)
+                if not any(w == 'transparency' for w, _d in direct_failures(r2)):
+                    r2['state_dependent'] = {'first_props': len(r['props']), 'first_exp': None if r['exp'] is None else len(r['exp'])}
+                    r2['own_u'] = r2['own_m'] = r2['pk'] = None
+                    r.update(r2)
         except _Timeout:
             r['exp_exc'] = 'Timeout'
         except RecursionError:
@@ -889,6 +902,11 @@ def run(ctx):
                 ctx.histogram('transparency_checked', r['exp_kind'])
             elif r['exp_exc']:
                 ctx.histogram('transparency_unavailable', r['exp_exc'])
+            if r.get('state_dependent'):
+                ctx.histogram('state_dependent_mismatches', r['kind'])
+                sd = cov.setdefault('state_dependent_samples', [])
+                if len(sd) < 5:
+                    sd.append({'file': j['filename'], 'position': [r['ln'], r['col']], 'line': r['line'][:80]})
             bad = direct_failures(r)
             if bad:
                 nviol += 1
